@@ -415,7 +415,23 @@ def p_narrowreg(r, op):
     else:
         p.emit(itype("addiw", r.choice(WORK), unk, imm12(r)))
     body(r, p, r.randint(0, 2), mem=0.2)
-    p.emit(rtype(r.choice(["add", "xor", "sub"]), r.choice(WORK), unk, reg(r)))
+    k = r.random()
+    if k < 0.4:
+        p.emit(rtype(r.choice(["add", "xor", "sub"]), r.choice(WORK), unk, reg(r)))
+    elif k < 0.6:
+        # the only 8-byte use is the base address of a store / load / atomic
+        nm, w = r.choice(STORES)
+        p.emit(stype(nm, r.choice(WORK), unk, r.choice([0, 0, 8, -8, imm12(r)])))
+    elif k < 0.75:
+        nm, w = r.choice(LOADS)
+        p.emit(itype(nm, r.choice(WORK), unk, r.choice([0, 0, 8, -8, imm12(r)])))
+    elif k < 0.85:
+        p.emit(stype("sd", unk, PTR, r.choice([0, 8, 16])))          # ... or the value stored
+    elif k < 0.93:
+        p.emit(amo(r.choice(AMOS_D), r.choice(WORK), unk, reg(r)))
+    else:
+        p.emit(btype(r.choice(["beq", "bne", "bltu", "bge"]), unk, reg(r), 8))
+        p.emit(itype("addi", r.choice(WORK), 0, 1))
     body(r, p, r.randint(0, 2), mem=0.2)
     return line(op, r, cbase, [(cbase, p.assemble())], [data], len(p.words), presets(r, ptr))
 
@@ -623,7 +639,7 @@ def p_top(r, op):
 
 
 SHAPES = [(p_top, 3), (p_selfjump, 1), (p_straight, 3), (p_membuf, 4), (p_loop, 3), (p_branches, 2), (p_calls, 2), (p_badjump, 2),
-          (p_div, 1), (p_narrowreg, 1), (p_unknown, 3), (p_readcode, 1), (p_blocks, 1)]
+          (p_div, 1), (p_narrowreg, 2), (p_unknown, 3), (p_readcode, 1), (p_blocks, 1)]
 
 
 def _pick(r):
